@@ -43,6 +43,11 @@ def gost_matrix(tier):
             ('small-gcc-O2-fast', 'gcc', '-O2', ['-DGOST28147_USE_SMALL_TABLES=1', '-DC08_SWEEP_FULL=1'], None)]
 
 
+# every built-in S-box set against libgcrypt's own tables (both table builds)
+GCRYPT_SPECS = [('gostref:expanded-gcc-O2', 'harness/C08/h_gost_gcrypt.c', ('gcrypt-expanded', 'gcc', '-O2', ['-lgcrypt'], 'asan')),
+                ('gostref:small-gcc-O2', 'harness/C08/h_gost_gcrypt.c', ('gcrypt-small', 'gcc', '-O2', ['-DGOST28147_USE_SMALL_TABLES=1', '-lgcrypt'], 'asan'))]
+
+
 def build_all(rep, specs):
     """specs: list of (config name, source, matrix row).  Returns {config: binary}; a configuration that does not
     compile is recorded as skipped with the compiler message."""
@@ -113,12 +118,13 @@ def run(tier):
     rep.assumptions = [
         'references ref_chacha.h / ref_gost.h (textbook C, no code shared with liblcb), validated at check time against '
         'openssl enc -chacha20, RFC 7539 2.3.2, draft-irtf-cfrg-xchacha 2.2.1 and every vector in the headers\' self-test tables',
-        'GOST S-box VALUES and their row/nibble layout are data read from the header; only the published vectors anchor them',
+        'GOST S-box values of all six built-in sets are anchored by libgcrypt (its own tables, selected by OID): encryption, decryption and MAC agree',
         'the big-endian MAC serialisation (gost28147_final_be) is defined by the header\'s own vector, no standard fixes it',
         'counter wrap at 2^64 is judged as arithmetic mod 2^64 (what openssl does too); such cases use clause names ending in @wrap64',
     ]
     specs = [('chacha:' + r[0], 'harness/C08/h_chacha.c', r) for r in chacha_matrix(tier)]
     specs += [('gost:' + r[0], 'harness/C08/h_gost.c', r) for r in gost_matrix(tier)]
+    specs += GCRYPT_SPECS
     bins = build_all(rep, specs)
     if not bins:
         rep.harness_errors.append('no configuration compiled')
@@ -174,6 +180,7 @@ def replay(r, tier):
     rep = core.Report(P, tier, 'model_checking', 'replay')
     specs = [('chacha:' + m[0], 'harness/C08/h_chacha.c', m) for m in chacha_matrix('thorough') + chacha_matrix('quick')]
     specs += [('gost:' + m[0], 'harness/C08/h_gost.c', m) for m in gost_matrix(tier)]
+    specs += GCRYPT_SPECS
     spec = [s for s in specs if s[0] == r.get('config')]
     if not spec:
         sys.stderr.write('unknown configuration %r\n' % r.get('config'))
